@@ -2,7 +2,8 @@
 
 Enumeration: target in {absent, existing TDF, existing non-TDF, existing empty file} x source in
 every file state reachable by the container driver K within a small depth x op in {Tdf.new, copy}
-x path given as str / pathlib.Path x source object closed / inside a read context / inside a write context; then every one-operation mutation of the copy (original must
+x path given as str / pathlib.Path x source object closed / inside a read context / inside a write context / inside a write context right
+after it was sized and then changed by a mutation; then every one-operation mutation of the copy (original must
 stay) and of the original (copy must stay).  Opening: absent path, empty file, non-TDF file,
 truncated signature - refused, never data."""
 import os
@@ -111,25 +112,42 @@ def check_copy(cfg, directory, base, model, tkind, as_path, acc, src_mode="close
     before = make_target(target, tkind)
     s = n.tdf.Tdf(src)
     arg = pathlib.Path(target) if as_path else target
-    try:
-        if src_mode == "closed":
-            c = s.copy(arg)
-        else:
-            if src_mode == "write":
-                s.allow_write()
-            with s:
-                if len(s):
-                    try:
-                        s.get_block(0)
-                    except Exception:  # noqa: BLE001 - opaque block
-                        pass
-                c = s.copy(arg)
-        err = None
-    except Exception as e:  # noqa: BLE001
-        c, err = None, e
+
+    def do_copy():
+        try:
+            return s.copy(arg), None
+        except Exception as e:  # noqa: BLE001
+            return None, e
+
+    if src_mode == "closed":
+        c, err = do_copy()
+    else:
+        if src_mode in ("write", "write-after-op"):
+            s.allow_write()
+        with s:
+            if len(s):
+                try:
+                    s.get_block(0)
+                except Exception:  # noqa: BLE001 - opaque block
+                    pass
+            if src_mode == "write-after-op":
+                # the object is sized / printed, then the file is changed in this very context, then copied:
+                # the copy must be the file as it is after that change
+                s.nBytes
+                repr(s)
+                op0 = next((o for o in kdriver.ops_for(cfg, model) if o[0] in ("add", "replace", "remove") and o[-1] != "instance"), None)
+                if op0 is not None:
+                    exc0 = _MiniSession(s).call(op0)
+                    if exc0 is not None:
+                        raise core.HarnessError(f"valid op refused while preparing a copy source: {op0}: {exc0}")
+            c, err = do_copy()
+        if src_mode == "write-after-op":
+            base = read(src)  # what the source holds once the context is closed
     acc.n["transitions"] += 1
     if read(src) != base:
         raise V("copy-changed-source", "copy() changed the source file")
+    if src_mode == "write-after-op" and tkind != "absent":
+        pass
     if tkind != "absent":
         if err is None:
             raise V("existing-target-overwritten", f"copy onto an existing {tkind} file returned normally", f"copy:{tkind}")
@@ -272,7 +290,7 @@ def _shard(cfg_w):
                 wit = {"config": cfg.to_witness(), "base": base.hex(), "target": tkind, "as_path": as_path,
                        "base_model": specs.dump([(r.type, r.format, r.payload, r.comment, r.ctime, r.mtime) for r in model.live.values()]),
                        "history": [kdriver.op_str(o) for o in hist]}
-                for src_mode in ("closed", "read", "write"):
+                for src_mode in ("closed", "read", "write", "write-after-op"):
                     if src_mode != "closed" and as_path:
                         continue
                     wit2 = dict(wit, src_mode=src_mode)
